@@ -4,6 +4,7 @@ from typing import Union
 
 from idpyoidc.message import Message
 from idpyoidc.message import oauth2
+from idpyoidc import verified_claim_name
 from idpyoidc.message.oauth2 import AuthorizationRequest
 from idpyoidc.server.oauth2.authorization import Authorization
 from idpyoidc.time_util import utc_time_sans_frac
@@ -52,8 +53,12 @@ class PushedAuthorization(Authorization):
         # Store the parsed and verified request, together with the end of the lifetime that
         # is announced below. Stored as a dictionary: the pending requests are part of the
         # state the context exports, and an export has to be JSON serialisable
+        _stored = _request.to_dict()
+        # A request object inside the pushed request was checked when it was pushed and its
+        # parameters are part of the request: the unpacked object itself is not kept
+        _stored.pop(verified_claim_name("request"), None)
         self.upstream_get("context").par_db[_urn] = {
-            "request": _request.to_dict(),
+            "request": _stored,
             "expires_at": utc_time_sans_frac() + self.ttl,
         }
 
